@@ -170,8 +170,20 @@ impl Server {
     }
 
     pub fn serve(&mut self) {
+        #[cfg(veryl_verif)]
+        let verif_gate = verif::Gate::from_env();
+        #[cfg(veryl_verif)]
+        let mut verif_handled: u64 = 0;
         loop {
+            #[cfg(veryl_verif)]
+            if verif_gate.is_some() && self.rcv.is_empty() {
+                self.verif_idle(verif_handled);
+            }
             if let Ok(msg) = self.rcv.recv_blocking() {
+                #[cfg(veryl_verif)]
+                {
+                    verif_handled += 1;
+                }
                 match msg {
                     MsgToServer::Initialize { capability } => {
                         self.work_done_progress = capability.work_done_progress;
@@ -208,6 +220,15 @@ impl Server {
             }
 
             while self.rcv.is_empty() && !self.background_tasks.is_empty() {
+                // Verification gate: a background step runs only when the
+                // harness hands over a token; a queued message wins.
+                #[cfg(veryl_verif)]
+                if let Some(gate) = &verif_gate {
+                    self.verif_idle(verif_handled);
+                    if !gate.wait_token(&self.rcv) {
+                        break;
+                    }
+                }
                 if let Some(mut task) = self.background_tasks.pop_front() {
                     if !task.progress {
                         self.progress_start("background analyze");
@@ -239,6 +260,75 @@ impl Server {
                         self.background_tasks.push_front(task);
                     }
                 }
+            }
+        }
+    }
+}
+
+/// Verification gate (harness builds only, `--cfg veryl_verif`). With env
+/// `VERYL_VERIF_LS_GATE=<fifo>` the server thread reports every point at
+/// which its message queue is empty (`verif:idle handled=<n> bg_pending=<m>`
+/// via `window/logMessage`) and performs a background-analysis step only
+/// after one byte has been written to the FIFO. Without the variable the
+/// behaviour is unchanged.
+#[cfg(veryl_verif)]
+impl Server {
+    fn verif_idle(&self, handled: u64) {
+        // one loop iteration per queued path, at least one per task
+        let pending: usize = self
+            .background_tasks
+            .iter()
+            .map(|x| x.paths.len().max(1))
+            .sum();
+        block_on(self.client.log_message(
+            MessageType::LOG,
+            format!("verif:idle handled={handled} bg_pending={pending}"),
+        ));
+    }
+}
+
+#[cfg(veryl_verif)]
+mod verif {
+    use std::io::Read;
+    use std::sync::mpsc;
+    use std::time::Duration;
+
+    pub struct Gate {
+        tokens: mpsc::Receiver<u8>,
+    }
+
+    impl Gate {
+        pub fn from_env() -> Option<Gate> {
+            let path = std::env::var_os("VERYL_VERIF_LS_GATE")?;
+            let (tx, rx) = mpsc::channel();
+            std::thread::spawn(move || {
+                loop {
+                    let Ok(mut fifo) = std::fs::File::open(&path) else {
+                        return;
+                    };
+                    let mut byte = [0u8; 1];
+                    while let Ok(1) = fifo.read(&mut byte) {
+                        if tx.send(byte[0]).is_err() {
+                            return;
+                        }
+                    }
+                    std::thread::sleep(Duration::from_millis(1));
+                }
+            });
+            Some(Gate { tokens: rx })
+        }
+
+        /// Blocks until a message is queued (`false`) or a token arrives
+        /// (`true`: run exactly one background step).
+        pub fn wait_token<T>(&self, rcv: &async_channel::Receiver<T>) -> bool {
+            loop {
+                if !rcv.is_empty() {
+                    return false;
+                }
+                if self.tokens.try_recv().is_ok() {
+                    return true;
+                }
+                std::thread::sleep(Duration::from_micros(100));
             }
         }
     }
